@@ -2,7 +2,7 @@ package main
 
 import (
 	"fmt"
-	"go/token"
+	"go/types"
 	"strings"
 
 	"golang.org/x/tools/go/ssa"
@@ -10,370 +10,593 @@ import (
 
 func init() {
 	register(&propDef{
-		id: "C23", run: runC23, minOblig: 24,
-		explanation: "Decides DER strictness guards of the cryptobyte ASN.1 readers by finite-domain evaluation of their SSA (fixed-width arithmetic): (header) readASN1, over a grid of identifier octets, first length octets, decoded long-form lengths and input sizes, hands exactly header+content octets to ReadBytes and rejects the high-tag-number form, the indefinite length 0x80, more than 4 length octets, long form for lengths < 128, a zero leading length octet and 32-bit overflow; (INTEGER) checkASN1Integer accepts exactly non-empty minimal two's-complement contents (all combinations of length 0,1,2,9 and leading octets 00,01,7f,80,fe,ff); every INTEGER/ENUMERATED reader (readASN1BigInt, readASN1Bytes, readASN1Int64, readASN1Uint64, ReadASN1Int64WithTag, ReadASN1Enum) cannot report success when checkASN1Integer or the element read reports false; asn1Signed accepts at most 8 octets, asn1Unsigned at most 8 octets or 9 with a zero first octet and never a set sign bit (lengths 1..10 x first octets evaluated); (BOOLEAN) only one content octet equal to 00 or ff, all 256 values evaluated; (BIT STRING) padding count <= 7, zero for empty strings and the padding bits of the last octet zero (evaluated); (tags) each AddASN1X / ReadASN1X pair uses the X.690 universal tag of X. NOT decided: the full 'accepts exactly DER' equivalence, agreement with encoding/asn1 on values, time and OID content grammar.",
-		assumptions: []string{"int is 64-bit", "String.ReadBytes/readUnsigned contracts (C22)"},
+		id: "C23", run: runC23, minOblig: 40,
+		explanation: "Decides DER strictness of the cryptobyte ASN.1 readers by CONCRETE evaluation of their SSA inside the checker (c23_vm.go: fixed-width integers, slices over explicit-prefix/virtual memory so that 4 GiB inputs are representable, pointers, records, closures; static callees inside the module are evaluated in their own frames to any depth, so the verdicts do not depend on how the code under an entry point is factored, named or ordered; defer runs on the normal path; of the standard library only the Go bodies of encoding/binary, bytes, slices, strings, crypto/subtle and math/bits (folded) are evaluated, and a fixed set of pure functions of time, math/big (values carried as the checker's own time.Time / big.Int), errors.New and fmt.Errorf (some non-nil error) are answered by the checker's standard library; package variables hold what the evaluated package initialiser stores (bigOne); every other call leaving the module yields `unknown`, and a branch on unknown ends the run undecided = failed). Every rule calls an ENTRY POINT with concrete input octets and compares the observable outcome (bool result, output value, remaining input) with a specification written in the checker: (header) ReadAnyASN1, ReadAnyASN1Element, ReadASN1, ReadASN1Element over a grid of identifier octets x first length octets x long-form length values (0 .. 2^32-1, encoded in 1-4 or more octets incl. non-minimal ones) x input sizes (truncated header, truncated content, exact, trailing data): success exactly for a low-tag-number identifier with a definite, minimally encoded length of at most 4 octets, header+content <= 2^32-1 and enough input; output = content (or header+content), tag = identifier octet, remainder = what follows; (INTEGER) each INTEGER/ENUMERATED reader (readASN1Int64, readASN1Uint64, ReadASN1Int64WithTag, ReadASN1Enum, readASN1Bytes, readASN1BigInt) on contents of 0..10 octets x leading octets {00,01,7f,80,fe,ff}^2 x fill {00,ff,a5}: accepts only non-empty minimal two's-complement contents (integer), never succeeds on a wrong tag or a truncated element (integer-siblings), accepts exactly the values its destination type represents and returns the encoded value (int-range), and the returned value does not depend on what the destination held before — or, for an unexported reader, every static caller passes a fresh zero local (int-no-stale); (BOOLEAN) ReadASN1Boolean on 0,1,2 content octets x all 256 values: only one octet 00 or ff, value returned; (BIT STRING) ReadASN1BitString / ReadASN1BitStringAsBytes: padding count <= 7, zero for an empty string, padding bits zero, BitLength and Bytes returned; (OID) ReadASN1ObjectIdentifier: sub-identifiers minimal (no leading 0x80), not truncated, below 2^31, first two arcs unpacked; (optional) ReadOptionalASN1, SkipOptionalASN1, ReadOptionalASN1OctetString, ReadOptionalASN1Boolean: an absent element consumes nothing and yields the default / nil, a present one must be a DER element wrapping exactly the expected content; (tags) every typed reader accepts a valid content under exactly ONE of the 256 identifier octets, the X.690 universal tag of its type, and every element a builder emits starts with the identifier octet X.690 assigns; (builders) each AddASN1X (Int64, Int64WithTag, Enum, Uint64, BigInt, OctetString, BitString, Boolean, NULL, ObjectIdentifier, GeneralizedTime, UTCTime) is evaluated on a Builder made by NewBuilder and read back through Bytes: the octets equal what encoding/asn1.Marshal, run in the checker, emits for the same value (boundary values of every length class up to 2^128, contents of 0..65536 octets for all length forms), and values without an encoding (invalid OIDs, years outside the type's range) yield an error. readASN1BigInt is compared with the big.Int value. NOT decided: the equivalence for all inputs outside the grids, the time content grammar of the readers, ReadASN1Integer's reflect-based narrowing to small integer types, ReadOptionalASN1Integer, data after the BOOLEAN inside an optional wrapper.",
+		assumptions: []string{"int is 64-bit", "go/ssa lowering is faithful to the compiler's semantics for the evaluated subset"},
 	})
-	tech("C23", "finite-domain evaluation of byte-level guards over boundary grids (all 256 values where a single octet decides), callee-result binding for sibling agreement, constant-tag table")
+	tech("C23", "concrete SSA evaluation (interprocedural, virtual memory) of reader entry points over boundary grids of input octets compared with an in-checker DER specification; caller-contract check for accumulate-into-destination helpers; builders evaluated end to end and compared with encoding/asn1.Marshal run in the checker")
 }
+
+const c23pk = "cryptobyte"
+
+// package-level variables of cryptobyte as its initialiser leaves them
+// (evaluated once per loaded program, read-only afterwards)
+var c23curGlobals map[*ssa.Global]*c23cell
 
 func runC23(c *Ctx) {
-	c23IntNoStale(c)
-	const pk = "cryptobyte"
-	// ---------- readASN1 header
-	if f := c.fn(pk, "(*String).readASN1"); f != nil {
-		rb := callsNamed(f, "(*cryptobyte.String).ReadBytes")
-		ru := callsNamed(f, "(*cryptobyte.String).readUnsigned")
-		// len32: the alloc passed to readUnsigned
-		var len32 *ssa.Alloc
-		if len(ru) == 1 {
-			len32, _ = ru[0].Common().Args[1].(*ssa.Alloc)
-		}
-		if len(rb) != 1 || len(ru) != 1 || len32 == nil {
-			c.fail("C23.header", "(*String).readASN1", f, "anchors not found (ReadBytes, readUnsigned, length variable)")
-		} else {
-			bad := ""
-			n := 0
-			sPath := "s"
-			for _, tag := range []int64{0x02, 0x30, 0x1f, 0x3f, 0xbf, 0xa0} {
-				for _, lb := range []int64{0x00, 0x05, 0x7f, 0x80, 0x81, 0x82, 0x83, 0x84, 0x85, 0xff} {
-					for _, L := range []int64{0, 1, 127, 128, 255, 256, 65535, 65536, 1<<24 - 1, 1 << 24, 1<<32 - 7, 1<<32 - 1} {
-						for _, size := range []int64{0, 1, 2, 3, 5, 6, 1000} {
-							e := newEnv()
-							allInstrs(f, func(in ssa.Instruction) {
-								switch x := in.(type) {
-								case *ssa.Call:
-									if calleeName(&x.Call) == "builtin:len" && accessPath(x.Call.Args[0]) == sPath {
-										e.bind(x, size)
-									}
-								case *ssa.UnOp:
-									if x.Op != token.MUL {
-										return
-									}
-									if ia, ok := x.X.(*ssa.IndexAddr); ok && accessPath(ia.X) == sPath {
-										if k, okk := constInt(ia.Index); okk {
-											if k == 0 {
-												e.bind(x, tag)
-											} else if k == 1 {
-												e.bind(x, lb)
-											}
-										}
-									}
-									if x.X == ssa.Value(len32) {
-										e.bind(x, L)
-									}
-								}
-							})
-							e.bind(callValue(ru[0]), 1)
-							e.solve(f)
-							got := e.reach[rb[0].Block()]
-							lenLen := lb & 0x7f
-							var want bool
-							var wantLen int64
-							switch {
-							case size < 2 || tag&0x1f == 0x1f:
-								want = false
-							case lb&0x80 == 0:
-								want, wantLen = true, lb+2
-							default:
-								want = lenLen >= 1 && lenLen <= 4 && size >= 2+lenLen && L >= 128 && (L>>uint((lenLen-1)*8)) != 0 && (2+lenLen+L) <= 1<<32-1
-								wantLen = 2 + lenLen + L
-							}
-							n++
-							if got != want {
-								if bad == "" {
-									bad = fmt.Sprintf("identifier %#02x, length octet %#02x, long-form value %d, input %d bytes: element read=%v, DER requires %v", tag, lb, L, size, got, want)
-								}
-								continue
-							}
-							if got {
-								if v, ok := e.eval(rb[0].Common().Args[2]); !ok || v != wantLen {
-									if bad == "" {
-										bad = fmt.Sprintf("identifier %#02x, length octet %#02x, value %d: reads %d bytes (ok=%v), header+content is %d", tag, lb, L, v, ok, wantLen)
-									}
-								}
-							}
-						}
-					}
-				}
-			}
-			c.check(bad == "", "C23.header", "(*String).readASN1", f, fmt.Sprintf("DER identifier/length rules hold on %d cases", n), bad)
-		}
-	}
-	// ---------- checkASN1Integer
-	if f := c.fn(pk, "checkASN1Integer"); f != nil {
-		bad := ""
-		n := 0
-		for _, ln := range []int64{0, 1, 2, 9} {
-			for _, b0 := range []int64{0x00, 0x01, 0x7f, 0x80, 0xfe, 0xff} {
-				for _, b1 := range []int64{0x00, 0x01, 0x7f, 0x80, 0xfe, 0xff} {
-					e := newEnv()
-					e.bindLen(f, f.Params[0], ln)
-					e.bindIndexLoads(f, func(b ssa.Value) bool { return b == ssa.Value(f.Params[0]) }, 0, b0)
-					e.bindIndexLoads(f, func(b ssa.Value) bool { return b == ssa.Value(f.Params[0]) }, 1, b1)
-					e.solve(f)
-					got, ok := c23Result(e, f)
-					want := ln >= 1 && (ln == 1 || !((b0 == 0 && b1&0x80 == 0) || (b0 == 0xff && b1&0x80 == 0x80)))
-					n++
-					if !ok || got != want {
-						bad = fmt.Sprintf("length %d, octets %#02x %#02x: accepted=%v (decided=%v), DER minimal encoding requires %v", ln, b0, b1, got, ok, want)
-					}
-				}
-			}
-		}
-		c.check(bad == "", "C23.integer", "checkASN1Integer", f, fmt.Sprintf("accepts exactly non-empty minimal encodings (%d cases)", n), bad)
-	}
-	// ---------- siblings: no success without the integer check / element read
-	for _, name := range []string{"(*String).readASN1BigInt", "(*String).readASN1Bytes", "(*String).readASN1Int64", "(*String).readASN1Uint64", "(*String).ReadASN1Int64WithTag", "(*String).ReadASN1Enum"} {
-		f := c.fn(pk, name)
-		if f == nil {
-			continue
-		}
-		for _, callee := range []string{"cryptobyte.checkASN1Integer", "(*cryptobyte.String).ReadASN1"} {
-			cs := callsNamed(f, callee)
-			bad := ""
-			if len(cs) != 1 {
-				bad = fmt.Sprintf("%d calls of %s (want 1)", len(cs), callee)
+	c23curGlobals = c23Globals(c)
+	c23Header(c)
+	c23Integers(c)
+	c23Boolean(c)
+	c23BitString(c)
+	c23OID(c)
+	c23Optional(c)
+	c23Tags(c)
+	c23Builders(c)
+}
+
+// ---------------------------------------------------------------------------
+// calling a reader method: receiver = pointer to the String variable holding
+// the input; the other parameters are supplied by type (role), not by name or
+// position: the pointer parameter is the destination, an asn1.Tag parameter
+// the tag, a second pointer to asn1.Tag the tag destination.
+
+type c23call struct {
+	f     *ssa.Function
+	in    c23slice
+	s     *c23cell // the receiver variable after the call
+	outs  []*c23cell
+	res   c23val
+	end   string
+	why   string
+	vm    *c23vm
+	input []byte // explicit prefix (messages)
+}
+
+func c23isTag(t types.Type) bool {
+	return strings.HasSuffix(t.String(), "cryptobyte/asn1.Tag")
+}
+
+// c23invoke runs f on input. outInit gives the initial content of each
+// pointer-typed destination parameter in order (nil = zero value); tag is used
+// for every parameter of type asn1.Tag; skip for bool parameters.
+func c23invoke(f *ssa.Function, in c23slice, outInit []c23val, tag int64, flag bool) *c23call {
+	r := &c23call{f: f, in: in, vm: &c23vm{model: c23libModel, globals: c23curGlobals, prog: f.Prog}}
+	sp, sc := c23newCell(in)
+	r.s = sc
+	args := []c23val{sp}
+	k := 0
+	for _, p := range f.Params[1:] {
+		switch pt := p.Type().Underlying().(type) {
+		case *types.Pointer:
+			var init c23val
+			if k < len(outInit) && outInit[k] != nil {
+				init = outInit[k]
 			} else {
-				e := newEnv()
-				e.bind(callValue(cs[0]), 0)
-				e.solve(f)
-				if got, ok := c23Result(e, f); !ok || got {
-					bad = "success can be reported although " + callee + " reported false"
-				}
+				init = c23zero(pt.Elem())
 			}
-			c.check(bad == "", "C23.integer-siblings", name+" / "+short(callee), f, "success requires "+short(callee)+" == true", bad)
+			ptr, cell := c23newCell(init)
+			r.outs = append(r.outs, cell)
+			args = append(args, ptr)
+			k++
+		default:
+			switch {
+			case c23isTag(p.Type()):
+				args = append(args, tag)
+			case types.Identical(p.Type().Underlying(), types.Typ[types.Bool]):
+				args = append(args, flag)
+			default:
+				args = append(args, c23unk{})
+			}
 		}
 	}
-	// ---------- asn1Signed / asn1Unsigned
-	for _, spec := range []struct {
-		fn    string
-		valid func(ln, b0 int64) bool
+	r.res, r.end, r.why = r.vm.run(f, args)
+	return r
+}
+
+func (r *c23call) ok() (accepted bool, decided bool) {
+	if r.end != "return" {
+		return false, false
+	}
+	b, isB := r.res.(bool)
+	return b, isB
+}
+
+// rest: the receiver's view after the call (offset into the input, length).
+func (r *c23call) rest() (off, n int64, ok bool) {
+	s, isS := r.s.v.(c23slice)
+	if !isS || (s.m != r.in.m && s.len != 0) {
+		return 0, 0, false
+	}
+	return s.off, s.len, true
+}
+
+func (r *c23call) outSlice(i int) (off, n int64, ok bool) {
+	if i >= len(r.outs) {
+		return 0, 0, false
+	}
+	s, isS := r.outs[i].v.(c23slice)
+	if !isS || (s.m != r.in.m && s.len != 0) {
+		return 0, 0, false
+	}
+	return s.off, s.len, true
+}
+
+func (r *c23call) failure() string {
+	switch r.end {
+	case "panic":
+		return "the reader panics (" + r.why + ")"
+	case "undecided":
+		return "evaluation undecided: " + r.why
+	}
+	return fmt.Sprintf("result %v is not a bool", r.res)
+}
+
+// ---------------------------------------------------------------------------
+// header
+
+// c23hdrSpec: X.690 / DER rules for identifier and length octets, with the
+// implementation limit header+content <= 2^32-1. b holds at least the header
+// octets present in an input of total octets.
+func c23hdrSpec(b []byte, total int64) (ok bool, hdr, L int64, reason string) {
+	at := func(i int64) int64 {
+		if i < int64(len(b)) {
+			return int64(b[i])
+		}
+		return 0xAB
+	}
+	if total < 2 {
+		return false, 0, 0, "fewer than two octets"
+	}
+	if at(0)&0x1f == 0x1f {
+		return false, 0, 0, "high-tag-number identifier"
+	}
+	lb := at(1)
+	if lb&0x80 == 0 {
+		hdr, L = 2, lb
+	} else {
+		k := lb & 0x7f
+		if k == 0 {
+			return false, 0, 0, "indefinite length 0x80 is not DER"
+		}
+		if k > 4 {
+			return false, 0, 0, "more than 4 length octets"
+		}
+		if total < 2+k {
+			return false, 0, 0, "length octets truncated"
+		}
+		for i := int64(0); i < k; i++ {
+			L = L<<8 | at(2+i)
+		}
+		if L < 128 {
+			return false, 0, 0, fmt.Sprintf("long form used for length %d < 128 (not minimal)", L)
+		}
+		if at(2) == 0 {
+			return false, 0, 0, "leading length octet is zero (not minimal)"
+		}
+		hdr = 2 + k
+		if hdr+L > 1<<32-1 {
+			return false, 0, 0, "header+content exceeds 2^32-1"
+		}
+	}
+	if total < hdr+L {
+		return false, 0, 0, "content truncated"
+	}
+	return true, hdr, L, ""
+}
+
+type c23hdrCase struct {
+	b     []byte
+	total int64
+}
+
+func c23hdrCases() []c23hdrCase {
+	var out []c23hdrCase
+	seen := map[string]bool{}
+	add := func(b []byte, total int64) {
+		if total < 0 {
+			return
+		}
+		k := fmt.Sprintf("%x/%d", b, total)
+		if seen[k] {
+			return
+		}
+		seen[k] = true
+		out = append(out, c23hdrCase{append([]byte(nil), b...), total})
+	}
+	for _, tag := range []byte{0x02, 0x30, 0x1f, 0x3f, 0xbf, 0xa0, 0x00, 0xff, 0x9e, 0x5f} {
+		add(nil, 0)
+		add([]byte{tag}, 1)
+		for _, lb := range []byte{0x00, 0x01, 0x05, 0x7f} {
+			h := []byte{tag, lb}
+			for _, sz := range []int64{2, 2 + int64(lb) - 1, 2 + int64(lb), 2 + int64(lb) + 3, 1000} {
+				add(h, sz)
+			}
+		}
+		for _, lb := range []byte{0x80, 0x81, 0x82, 0x83, 0x84, 0x85, 0x88, 0xff} {
+			k := int(lb & 0x7f)
+			for _, L := range []int64{0, 1, 127, 128, 255, 256, 65535, 65536, 1<<24 - 1, 1 << 24, 1<<32 - 7, 1<<32 - 6, 1<<32 - 1} {
+				h := []byte{tag, lb}
+				n := k
+				if n > 12 {
+					n = 12
+				}
+				for i := n - 1; i >= 0; i-- {
+					if i < 8 {
+						h = append(h, byte(L>>(8*uint(i))))
+					} else {
+						h = append(h, 0)
+					}
+				}
+				hl := int64(len(h))
+				// the length the octets actually say (for k <= 4 only the low k octets of L)
+				var said int64
+				for _, x := range h[2:] {
+					said = said<<8 | int64(x)
+				}
+				for _, sz := range []int64{2, hl - 1, hl, hl + said - 1, hl + said, hl + said + 3, 1000} {
+					add(h, sz)
+				}
+			}
+		}
+	}
+	return out
+}
+
+func c23Header(c *Ctx) {
+	cases := c23hdrCases()
+	for _, ep := range []struct {
+		name     string
+		withHdr  bool // output includes the header
+		tagParam bool // the expected tag is a parameter
 	}{
-		{"asn1Signed", func(ln, b0 int64) bool { return ln <= 8 }},
-		{"asn1Unsigned", func(ln, b0 int64) bool { return (ln <= 8 || (ln == 9 && b0 == 0)) && b0&0x80 == 0 }},
+		{"(*String).ReadAnyASN1", false, false},
+		{"(*String).ReadAnyASN1Element", true, false},
+		{"(*String).ReadASN1", false, true},
+		{"(*String).ReadASN1Element", true, true},
 	} {
-		f := c.fn(pk, spec.fn)
+		f := c.fn(c23pk, ep.name)
 		if f == nil {
 			continue
 		}
 		bad := ""
 		n := 0
-		for ln := int64(1); ln <= 10; ln++ {
-			for _, b0 := range []int64{0x00, 0x01, 0x7f, 0x80, 0xff} {
-				e := newEnv()
-				e.bindLen(f, f.Params[1], ln)
-				e.bindIndexLoads(f, func(b ssa.Value) bool { return b == ssa.Value(f.Params[1]) }, 0, b0)
-				e.solve(f)
-				// true return reachable?
-				got := false
-				for _, r := range returnsOf(f) {
-					if !e.reach[r.Block()] {
-						continue
-					}
-					if v, isC := constBool(retVal(r, 0)); isC && v {
-						got = true
-					}
+		for _, cs := range cases {
+			tagVariants := []int64{0}
+			if ep.tagParam {
+				t := int64(0x02)
+				if len(cs.b) > 0 {
+					t = int64(cs.b[0])
+				}
+				tagVariants = []int64{t, t ^ 0x01, t ^ 0x20}
+			}
+			for vi, tg := range tagVariants {
+				in := c23input(cs.b, cs.total, 0xAB)
+				r := c23invoke(f, in, nil, tg, false)
+				want, hdr, L, reason := c23hdrSpec(cs.b, cs.total)
+				if ep.tagParam && vi > 0 && want {
+					want, reason = false, fmt.Sprintf("the element's identifier octet %#02x is not the requested tag %#02x", cs.b[0], tg)
 				}
 				n++
-				if got != spec.valid(ln, b0) {
-					bad = fmt.Sprintf("%d content octets, first octet %#02x: accepted=%v, the destination type can represent it=%v", ln, b0, got, spec.valid(ln, b0))
+				desc := fmt.Sprintf("input %s of %d octets", c23hex(cs.b), cs.total)
+				if ep.tagParam {
+					desc += fmt.Sprintf(", tag %#02x requested", tg)
 				}
-			}
-		}
-		c.check(bad == "", "C23.int-range", spec.fn, f, fmt.Sprintf("size/sign limits correct on %d cases", n), bad)
-	}
-	// ---------- BOOLEAN
-	if f := c.fn(pk, "(*String).ReadASN1Boolean"); f != nil {
-		rd := callsNamed(f, "(*cryptobyte.String).ReadASN1")
-		var bytesA *ssa.Alloc
-		if len(rd) == 1 {
-			bytesA, _ = rd[0].Common().Args[1].(*ssa.Alloc)
-		}
-		bad := ""
-		if bytesA == nil {
-			bad = "element read not found"
-		} else {
-			for _, ln := range []int64{0, 1, 2} {
-				for b0 := int64(0); b0 < 256; b0++ {
-					e := newEnv()
-					e.bind(callValue(rd[0]), 1)
-					allInstrs(f, func(in ssa.Instruction) {
-						switch x := in.(type) {
-						case *ssa.Call:
-							if calleeName(&x.Call) == "builtin:len" {
-								if u, ok := x.Call.Args[0].(*ssa.UnOp); ok && u.X == ssa.Value(bytesA) {
-									e.bind(x, ln)
-								}
-							}
-						case *ssa.UnOp:
-							if ia, ok := x.X.(*ssa.IndexAddr); ok && x.Op == token.MUL {
-								if u, ok := ia.X.(*ssa.UnOp); ok && u.X == ssa.Value(bytesA) {
-									e.bind(x, b0)
-								}
-							}
-						}
-					})
-					e.solve(f)
-					got, ok := c23Result(e, f)
-					want := ln == 1 && (b0 == 0 || b0 == 0xff)
-					if !ok || got != want {
-						bad = fmt.Sprintf("BOOLEAN of %d octets, value %#02x: accepted=%v, DER requires %v", ln, b0, got, want)
+				got, dec := r.ok()
+				if !dec {
+					bad = desc + ": " + r.failure()
+					break
+				}
+				if got != want {
+					if got {
+						bad = fmt.Sprintf("%s: accepted, DER requires rejection — %s", desc, reason)
+					} else {
+						bad = fmt.Sprintf("%s: rejected, but it starts with a DER element (header %d + content %d octets)", desc, hdr, L)
+					}
+					break
+				}
+				if !got {
+					continue
+				}
+				wo, wn := hdr, L
+				if ep.withHdr {
+					wo, wn = 0, hdr+L
+				}
+				if o, ln, ok := r.outSlice(0); !ok || ln != wn || (ln != 0 && o != wo) {
+					bad = fmt.Sprintf("%s: output is input[%d:%d] (known=%v), the element's octets are input[%d:%d]", desc, o, o+ln, ok, wo, wo+wn)
+					break
+				}
+				if o, ln, ok := r.rest(); !ok || ln != cs.total-hdr-L || (ln != 0 && o != hdr+L) {
+					bad = fmt.Sprintf("%s: %d octets remain from offset %d (known=%v), the element ends at offset %d", desc, ln, o, ok, hdr+L)
+					break
+				}
+				if !ep.tagParam {
+					if tv, ok := r.outs[1].v.(int64); !ok || tv != int64(cs.b[0]) {
+						bad = fmt.Sprintf("%s: reported tag %v, identifier octet is %#02x", desc, r.outs[1].v, cs.b[0])
+						break
 					}
 				}
 			}
-		}
-		c.check(bad == "", "C23.boolean", "(*String).ReadASN1Boolean", f, "exactly one octet, 00 or ff (3 x 256 cases)", bad)
-	}
-	// ---------- BIT STRING
-	if f := c.fn(pk, "(*String).ReadASN1BitString"); f != nil {
-		// evaluate the second guard: paddingBits (bytes[0]) / len(rest) / last byte
-		var pad ssa.Value
-		var restLen []ssa.Value
-		var last ssa.Value
-		allInstrs(f, func(in ssa.Instruction) {
-			switch x := in.(type) {
-			case *ssa.UnOp:
-				if x.Op != token.MUL {
-					return
-				}
-				if ia, ok := x.X.(*ssa.IndexAddr); ok {
-					if k, okk := constInt(ia.Index); okk && k == 0 && pad == nil {
-						pad = x
-					} else if !okk {
-						last = x
-					}
-				}
-			}
-		})
-		// len(bytes) after the reslice bytes = bytes[1:]: loads of the local
-		// that follow the store of a slice expression into it
-		var reslice *ssa.Store
-		allInstrs(f, func(in ssa.Instruction) {
-			if st, ok := in.(*ssa.Store); ok {
-				if _, isSl := st.Val.(*ssa.Slice); isSl {
-					if _, isAl := st.Addr.(*ssa.Alloc); isAl {
-						reslice = st
-					}
-				}
-			}
-		})
-		allInstrs(f, func(in ssa.Instruction) {
-			if x, ok := in.(*ssa.Call); ok && calleeName(&x.Call) == "builtin:len" && reslice != nil {
-				if u, isU := x.Call.Args[0].(*ssa.UnOp); isU && u.X == reslice.Addr && precedes(reslice, u) {
-					restLen = append(restLen, x)
-				}
-			}
-		})
-		bad := ""
-		var outStore *ssa.Store
-		for _, st := range storesTo(f, "BitString", "BitLength") {
-			outStore = st
-		}
-		if pad == nil || len(restLen) == 0 || last == nil || outStore == nil {
-			bad = "anchors not found (padding count, remaining length, last octet, result store)"
-		} else {
-			for _, p := range []int64{0, 1, 3, 7, 8, 255} {
-				for _, ln := range []int64{0, 1, 5} {
-					for _, lb := range []int64{0x00, 0x01, 0x08, 0x80, 0xff} {
-						e := newEnv()
-						e.bind(pad, p)
-						for _, v := range restLen {
-							e.bind(v, ln)
-						}
-						e.bind(last, lb)
-						cut := e.cuts(f)
-						got := reachAfter(pad.(ssa.Instruction), cut)[outStore.Block()]
-						want := p <= 7 && !(ln == 0 && p != 0) && !(ln > 0 && lb&(1<<uint(p)-1) != 0)
-						if p > 7 {
-							want = false
-						}
-						if got != want {
-							bad = fmt.Sprintf("padding count %d, %d content octets, last octet %#02x: accepted=%v, DER requires %v", p, ln, lb, got, want)
-						}
-					}
-				}
+			if bad != "" {
+				break
 			}
 		}
-		c.check(bad == "", "C23.bitstring", "(*String).ReadASN1BitString", f, "padding count and padding bits checked", bad)
-	}
-	// ---------- universal tags
-	tags := map[string]int64{
-		"(*Builder).AddASN1Int64": 2, "(*Builder).AddASN1Uint64": 2, "(*Builder).AddASN1BigInt": 2, "(*Builder).AddASN1Enum": 10,
-		"(*Builder).AddASN1OctetString": 4, "(*Builder).AddASN1GeneralizedTime": 24, "(*Builder).AddASN1UTCTime": 23,
-		"(*Builder).AddASN1BitString": 3, "(*Builder).AddASN1ObjectIdentifier": 6, "(*Builder).AddASN1Boolean": 1, "(*Builder).AddASN1NULL": 5,
-		"(*String).ReadASN1Boolean": 1, "(*String).readASN1BigInt": 2, "(*String).readASN1Bytes": 2, "(*String).readASN1Int64": 2, "(*String).readASN1Uint64": 2,
-		"(*String).ReadASN1Enum": 10, "(*String).ReadASN1ObjectIdentifier": 6, "(*String).ReadASN1GeneralizedTime": 24, "(*String).ReadASN1UTCTime": 23,
-		"(*String).ReadASN1BitString": 3, "(*String).ReadASN1BitStringAsBytes": 3,
-	}
-	for name, want := range tags {
-		f := c.fn(pk, name)
-		if f == nil {
-			continue
-		}
-		got := int64(-1)
-		for _, g := range withClosures(f) {
-			for _, ci := range calls(g, func(n string) bool {
-				return strings.HasSuffix(n, ".AddASN1") || strings.HasSuffix(n, ".ReadASN1") || strings.HasSuffix(n, ".addASN1Signed") || strings.HasSuffix(n, ".AddASN1Int64WithTag") || strings.HasSuffix(n, ".ReadASN1Bytes")
-			}) {
-				for _, a := range ci.Common().Args {
-					if strings.HasSuffix(a.Type().String(), "asn1.Tag") {
-						if k, ok := constInt(a); ok {
-							got = k
-						}
-					}
-				}
-			}
-		}
-		if got == -1 {
-			// the tag is written directly as the first octet: b.add(uint8(tag), …)
-			for _, ci := range callsNamed(f, "(*cryptobyte.Builder).add") {
-				if sl, ok := ci.Common().Args[1].(*ssa.Slice); ok {
-					if al, ok := sl.X.(*ssa.Alloc); ok {
-						for _, r := range *al.Referrers() {
-							if ia, ok := r.(*ssa.IndexAddr); ok {
-								if k, okk := constInt(ia.Index); okk && k == 0 {
-									for _, rr := range *ia.Referrers() {
-										if st, ok := rr.(*ssa.Store); ok {
-											if v, okv := constInt(st.Val); okv {
-												got = v
-											}
-										}
-									}
-								}
-							}
-						}
-					}
-				}
-			}
-		}
-		c.check(got == want, "C23.tags", name, f, fmt.Sprintf("universal tag %d", want), fmt.Sprintf("uses tag %d, X.690 assigns %d", got, want))
+		c.check(bad == "", "C23.header", ep.name, f, fmt.Sprintf("DER identifier/length rules, output, tag and remainder correct on %d inputs", n), bad)
 	}
 }
 
-// c23Result: can the function return true under e? ok=false if some reachable
-// return value cannot be evaluated.
-func c23Result(e *penv, f *ssa.Function) (canTrue bool, ok bool) {
-	ok = true
-	for _, r := range returnsOf(f) {
-		if !e.reach[r.Block()] {
-			continue
-		}
-		v := retVal(r, 0)
-		if b, isC := constBool(v); isC {
-			if b {
-				canTrue = true
-			}
-			continue
-		}
-		if n, evOK := e.eval(v); evOK {
-			if n != 0 {
-				canTrue = true
-			}
-			continue
-		}
-		ok = false
-		canTrue = true
+// ---------------------------------------------------------------------------
+// BOOLEAN
+
+func c23tlv(tag byte, content []byte, trailer ...byte) []byte {
+	b := []byte{tag}
+	if len(content) < 128 {
+		b = append(b, byte(len(content)))
+	} else {
+		b = append(b, 0x81, byte(len(content)))
 	}
-	return
+	b = append(b, content...)
+	return append(b, trailer...)
+}
+
+func c23Boolean(c *Ctx) {
+	f := c.fn(c23pk, "(*String).ReadASN1Boolean")
+	if f == nil {
+		return
+	}
+	bad := ""
+	n := 0
+	for ln := 0; ln <= 2 && bad == ""; ln++ {
+		for b0 := 0; b0 < 256 && bad == ""; b0++ {
+			for _, init := range []bool{false, true} {
+				content := make([]byte, ln)
+				for i := range content {
+					content[i] = byte(b0)
+				}
+				in := c23tlv(0x01, content, 0x5a)
+				r := c23invoke(f, c23input(in, int64(len(in)), 0), []c23val{init}, 0, false)
+				want := ln == 1 && (b0 == 0 || b0 == 0xff)
+				n++
+				got, dec := r.ok()
+				switch {
+				case !dec:
+					bad = fmt.Sprintf("BOOLEAN with content %s: %s", c23hex(content), r.failure())
+				case got != want:
+					bad = fmt.Sprintf("BOOLEAN of %d octets, value %#02x: accepted=%v, DER requires %v (exactly one octet, 00 or ff)", ln, b0, got, want)
+				case got:
+					if v, ok := r.outs[0].v.(bool); !ok || v != (b0 == 0xff) {
+						bad = fmt.Sprintf("BOOLEAN %#02x: decoded %v (destination held %v before)", b0, r.outs[0].v, init)
+					} else if _, rl, ok := r.rest(); !ok || rl != 1 {
+						bad = fmt.Sprintf("BOOLEAN %#02x: %d octets remain after the element, 1 follows it", b0, rl)
+					}
+				}
+				if bad != "" {
+					break
+				}
+			}
+		}
+	}
+	c.check(bad == "", "C23.boolean", "(*String).ReadASN1Boolean", f, fmt.Sprintf("exactly one octet, 00 or ff, value returned (%d inputs)", n), bad)
+}
+
+// ---------------------------------------------------------------------------
+// BIT STRING
+
+func c23BitString(c *Ctx) {
+	type bsCase struct{ content []byte }
+	var cases []bsCase
+	cases = append(cases, bsCase{nil})
+	for _, p := range []byte{0, 1, 3, 7, 8, 9, 0x80, 255} {
+		for _, ln := range []int{0, 1, 5} {
+			for _, lb := range []byte{0x00, 0x01, 0x08, 0x40, 0x80, 0xfe, 0xff} {
+				ct := []byte{p}
+				for i := 0; i < ln; i++ {
+					ct = append(ct, 0xff)
+				}
+				if ln > 0 {
+					ct[len(ct)-1] = lb
+				}
+				cases = append(cases, bsCase{ct})
+			}
+		}
+	}
+	for _, name := range []string{"(*String).ReadASN1BitString", "(*String).ReadASN1BitStringAsBytes"} {
+		f := c.fn(c23pk, name)
+		if f == nil {
+			continue
+		}
+		asBytes := strings.HasSuffix(name, "AsBytes")
+		bad := ""
+		for _, cs := range cases {
+			in := c23tlv(0x03, cs.content, 0x5a, 0x5a)
+			r := c23invoke(f, c23input(in, int64(len(in)), 0), nil, 0, false)
+			want, reason := true, ""
+			var p, ln int
+			switch {
+			case len(cs.content) == 0:
+				want, reason = false, "a BIT STRING has at least the padding-count octet"
+			default:
+				p, ln = int(cs.content[0]), len(cs.content)-1
+				switch {
+				case p > 7:
+					want, reason = false, "padding count above 7"
+				case ln == 0 && p != 0:
+					want, reason = false, "padding bits in an empty bit string"
+				case ln > 0 && cs.content[ln]&(1<<uint(p)-1) != 0:
+					want, reason = false, "padding bits of the last octet are not zero"
+				case asBytes && p != 0:
+					want, reason = false, "not a whole number of octets"
+				}
+			}
+			desc := fmt.Sprintf("BIT STRING content %s", c23hex(cs.content))
+			got, dec := r.ok()
+			switch {
+			case !dec:
+				bad = desc + ": " + r.failure()
+			case got && !want:
+				bad = fmt.Sprintf("%s (padding count %d, %d data octets): accepted, DER requires rejection — %s", desc, p, ln, reason)
+			case !got && want:
+				bad = fmt.Sprintf("%s (padding count %d, %d data octets): rejected, it is a valid DER BIT STRING", desc, p, ln)
+			case got:
+				var bytesV c23val
+				if asBytes {
+					bytesV = r.outs[0].v
+				} else if st, ok := r.outs[0].v.(*c23struct); ok && len(st.f) == 2 {
+					for _, fv := range st.f {
+						switch x := fv.(type) {
+						case c23slice:
+							bytesV = x
+						case int64:
+							if x != int64(8*ln-p) {
+								bad = fmt.Sprintf("%s: BitLength %d, the string has %d bits", desc, x, 8*ln-p)
+							}
+						}
+					}
+				}
+				if sl, ok := bytesV.(c23slice); !ok || sl.len != int64(ln) || (ln > 0 && (sl.m == nil || sl.off != 3)) {
+					bad = fmt.Sprintf("%s: returned octets are not the %d data octets of the element", desc, ln)
+				}
+				if _, rl, ok := r.rest(); !ok || rl != 2 {
+					bad = fmt.Sprintf("%s: %d octets remain after the element, 2 follow it", desc, rl)
+				}
+			}
+			if bad != "" {
+				break
+			}
+		}
+		c.check(bad == "", "C23.bitstring", name, f, fmt.Sprintf("padding count and padding bits checked, value returned (%d inputs)", len(cases)), bad)
+	}
+}
+
+// ---------------------------------------------------------------------------
+// OBJECT IDENTIFIER
+
+func c23oidSpec(ct []byte) (ok bool, arcs []int64, reason string) {
+	if len(ct) == 0 {
+		return false, nil, "empty OBJECT IDENTIFIER"
+	}
+	var subs []int64
+	for i := 0; i < len(ct); {
+		var v int64
+		n := 0
+		for {
+			if i >= len(ct) {
+				return false, nil, "truncated sub-identifier"
+			}
+			b := ct[i]
+			i++
+			if n == 0 && b == 0x80 {
+				return false, nil, "sub-identifier with a leading 0x80 octet (not minimal)"
+			}
+			n++
+			v = v<<7 | int64(b&0x7f)
+			if v > 1<<31-1 || n > 5 {
+				return false, nil, "sub-identifier does not fit 31 bits"
+			}
+			if b&0x80 == 0 {
+				break
+			}
+		}
+		subs = append(subs, v)
+	}
+	if subs[0] < 80 {
+		arcs = []int64{subs[0] / 40, subs[0] % 40}
+	} else {
+		arcs = []int64{2, subs[0] - 80}
+	}
+	return true, append(arcs, subs[1:]...), ""
+}
+
+func c23OID(c *Ctx) {
+	f := c.fn(c23pk, "(*String).ReadASN1ObjectIdentifier")
+	if f == nil {
+		return
+	}
+	cases := [][]byte{
+		nil, {0x2a}, {0x00}, {0x27}, {0x28}, {0x4f}, {0x50}, {0x7f}, {0x80}, {0x80, 0x01}, {0x81, 0x00}, {0x81}, {0xff},
+		{0x2a, 0x86, 0x48, 0x86, 0xf7, 0x0d, 0x01, 0x01, 0x0b},
+		{0x2a, 0x80, 0x01}, {0x2a, 0x80}, {0x2a, 0x81}, {0x2a, 0x81, 0x80, 0x01}, {0x2a, 0x81, 0x80, 0x80},
+		{0x2a, 0xff, 0xff, 0xff, 0x7f}, {0x2a, 0x87, 0xff, 0xff, 0xff, 0x7f}, {0x2a, 0x88, 0x80, 0x80, 0x80, 0x00},
+		{0x2a, 0x8f, 0xff, 0xff, 0xff, 0x7f}, {0x2a, 0x81, 0x80, 0x80, 0x80, 0x80, 0x00}, {0x2a, 0xff, 0xff, 0xff, 0xff, 0xff, 0x7f},
+		{0x87, 0xff, 0xff, 0xff, 0x7f}, {0x88, 0x80, 0x80, 0x80, 0x00}, {0x2a, 0x01, 0x80, 0x02}, {0x2a, 0x01, 0x02, 0x83},
+		{0x2a, 0x81, 0x80, 0x80, 0x80, 0x80}, {0x2a, 0x87, 0xff, 0xff, 0xff, 0xff},
+	}
+	bad := ""
+	for _, ct := range cases {
+		in := c23tlv(0x06, ct, 0x5a)
+		r := c23invoke(f, c23input(in, int64(len(in)), 0), nil, 0, false)
+		want, arcs, reason := c23oidSpec(ct)
+		desc := "OBJECT IDENTIFIER content " + c23hex(ct)
+		got, dec := r.ok()
+		switch {
+		case !dec:
+			bad = desc + ": " + r.failure()
+		case got && !want:
+			bad = desc + ": accepted, DER requires rejection — " + reason
+		case !got && want:
+			bad = fmt.Sprintf("%s: rejected, it encodes %v", desc, arcs)
+		case got:
+			sl, ok := r.outs[0].v.(c23slice)
+			if !ok || sl.len != int64(len(arcs)) {
+				bad = fmt.Sprintf("%s: %d arcs returned, it encodes %v", desc, sl.len, arcs)
+				break
+			}
+			for i, a := range arcs {
+				if v, isI := sl.m.get(sl.off + int64(i)).(int64); !isI || v != a {
+					bad = fmt.Sprintf("%s: arc %d decoded as %v, it encodes %v", desc, i, sl.m.get(sl.off+int64(i)), arcs)
+				}
+			}
+			if _, rl, ok := r.rest(); !ok || rl != 1 {
+				bad = fmt.Sprintf("%s: %d octets remain after the element, 1 follows it", desc, rl)
+			}
+		}
+		if bad != "" {
+			break
+		}
+	}
+	c.check(bad == "", "C23.oid", "(*String).ReadASN1ObjectIdentifier", f, fmt.Sprintf("minimal, complete, 31-bit sub-identifiers; arcs returned (%d inputs)", len(cases)), bad)
+}
+
+// ---------------------------------------------------------------------------
+// universal tags
+
+func c23Tags(c *Ctx) {
+	// readers: a valid content is accepted under exactly one identifier octet
+	readers := []struct {
+		name    string
+		tag     int64
+		content []byte
+	}{
+		{"(*String).ReadASN1Boolean", 1, []byte{0xff}},
+		{"(*String).readASN1BigInt", 2, []byte{0x05}},
+		{"(*String).readASN1Bytes", 2, []byte{0x05}},
+		{"(*String).readASN1Int64", 2, []byte{0x05}},
+		{"(*String).readASN1Uint64", 2, []byte{0x05}},
+		{"(*String).ReadASN1Enum", 10, []byte{0x05}},
+		{"(*String).ReadASN1ObjectIdentifier", 6, []byte{0x2a, 0x03}},
+		{"(*String).ReadASN1GeneralizedTime", 24, []byte("20240102030405Z")},
+		{"(*String).ReadASN1UTCTime", 23, []byte("240102030405Z")},
+		{"(*String).ReadASN1BitString", 3, []byte{0x00, 0x05}},
+		{"(*String).ReadASN1BitStringAsBytes", 3, []byte{0x00, 0x05}},
+	}
+	for _, rd := range readers {
+		f := c.fn(c23pk, rd.name)
+		if f == nil {
+			continue
+		}
+		bad := ""
+		for t := int64(0); t < 256 && bad == ""; t++ {
+			in := c23tlv(byte(t), rd.content)
+			r := c23invoke(f, c23input(in, int64(len(in)), 0), nil, 0, false)
+			got, dec := r.ok()
+			switch {
+			case !dec:
+				bad = fmt.Sprintf("identifier octet %#02x: %s", t, r.failure())
+			case got != (t == rd.tag):
+				bad = fmt.Sprintf("identifier octet %#02x with content %s: accepted=%v; X.690 assigns universal tag %d to this type", t, c23hex(rd.content), got, rd.tag)
+			}
+		}
+		c.check(bad == "", "C23.tags", rd.name, f, fmt.Sprintf("accepts the element under universal tag %d only (256 identifier octets)", rd.tag), bad)
+	}
+	// builders: see c23Builders (the identifier octet of every emitted element)
 }
